@@ -108,6 +108,17 @@ func (c *Ctx) errorChecked(call *ssa.Call) (bool, string) {
 	}
 	tests := errTests(errV)
 	if len(tests) == 0 {
+		// "err = f() / err = g()" in two branches tested once behind the merge: the φ carries this error
+		for _, ref := range *errV.Referrers() {
+			if ph, ok := ref.(*ssa.Phi); ok && isErrorType(ph.Type()) {
+				if ts := errTests(ph); len(ts) > 0 {
+					errV, tests = ph, ts
+					break
+				}
+			}
+		}
+	}
+	if len(tests) == 0 {
 		// the error may be returned directly: `return f()` or `return x, wrap(err)`
 		if c.errFlowsToReturn(errV) {
 			return true, "the error result is returned to the caller (wrapped or as is)"
